@@ -201,6 +201,8 @@ def run_query(builder, q, vars_, tier, workroot):
             replace |= set(m)
         for s in stubs:
             if s.endswith('__self'): replace.add(s)
+            elif s in q.models:
+                res.assumptions.append('%s: body written in the spec prelude (trusted model of a function that is not in the dump)' % s)
             elif s not in replace:
                 res.reason = 'bodiless function %s is not replaced by a contract' % s; return res
         timeout = q.timeout or (180 if tier == 'quick' else 900)
@@ -218,7 +220,7 @@ def run_query(builder, q, vars_, tier, workroot):
                 # header line of loop k of that function: first line at/before the '/*@loop k*/' marker inside the function
                 fstart = None
                 for i, l in enumerate(clines):
-                    if re.match(r"^[\w\s\*]+\b%s\(" % re.escape(fnc), l) and not l.rstrip().endswith(';'):
+                    if re.match(r"^[A-Za-z_][\w\s\*]*\b%s\(" % re.escape(fnc), l) and not l.rstrip().endswith(';'):
                         fstart = i; break
                 if fstart is None:
                     res.reason = 'pre-unwind: function %s not found' % fnc; return res
